@@ -557,6 +557,12 @@ func (f *Frame) applyContract(ct *Contract, key string, names []string, sig *typ
 				e.vars[names[i]] = a
 			}
 			e.vars[fmt.Sprintf("arg%d", i)] = a
+			// the name the parameter had when the contract was written (it may have been renamed since)
+			if len(ct.Params) == len(args) && ct.Params[i] != "_" {
+				if _, taken := e.vars[ct.Params[i]]; !taken {
+					e.vars[ct.Params[i]] = a
+				}
+			}
 		}
 		if sig != nil && sig.Recv() != nil && len(args) > 0 {
 			e.vars["recv"] = args[0]
@@ -1068,6 +1074,17 @@ func (f *Frame) applyIterates(ct *Contract, fn *ssa.Function, args []Val, resT t
 		}
 		for _, l := range cct.Lets {
 			e.lets[l.Name] = l.Expr
+		}
+		// captured variables renamed since the closure's contract was written (source-order alignment)
+		if len(cct.Locals) > 0 {
+			for k, v := range alignLocals(cct.Locals, orderedLocals(clo.Fn)) {
+				if k != v {
+					if e.alias == nil {
+						e.alias = map[string]string{}
+					}
+					e.alias[k] = v
+				}
+			}
 		}
 	}
 	for _, u := range cct.Uses {
